@@ -109,6 +109,19 @@ def sha(txt):
     return hashlib.sha256(txt.encode("utf-8")).hexdigest()
 
 
+def key_of(txt):
+    """the cache key the implementation itself derives from a text (so that a different but injective key
+    derivation is not mistaken for a defect); sha256(text), the anchored definition, when that is not callable"""
+    f = getattr(pymoca.parser, "_calculate_txt_hash", None)
+    try:
+        k = f(txt)
+        if isinstance(k, str):
+            return k
+    except Exception:  # noqa
+        pass
+    return sha(txt)
+
+
 _blob_status = {}
 
 
@@ -251,7 +264,9 @@ def store_facts(path, texts):
     """rows of the models table as (text index | -1, version, status)"""
     if not os.path.exists(path):
         return "missing"
-    by_hash = {sha(t): i for i, t in enumerate(texts)}
+    by_hash = {}
+    for i, t in enumerate(texts):
+        by_hash.setdefault(key_of(t), []).append(i)
     try:
         c = sqlite3.connect("file:%s?mode=ro" % path, uri=True)
         try:
@@ -264,12 +279,16 @@ def store_facts(path, texts):
         return "unreadable:" + type(e).__name__
     out = []
     for h, v, data in rows:
-        ti = by_hash.get(h, -1)
-        want = None
-        if ti >= 0:
+        # every text of the history whose key this is (normally exactly one); a row that cannot be attributed
+        # to a text (-1) is reported as such and not judged
+        alts = []
+        for ti in by_hash.get(h, []):
             f = fresh(texts[ti])
-            want = f[1] if f[0] == "tree" else None
-        out.append([ti, v, blob_status(data, want)])
+            alts.append([ti, blob_status(data, f[1] if f[0] == "tree" else None)])
+        if alts:
+            out.append([alts[0][0], v, alts[0][1], alts])
+        else:
+            out.append([-1, v, blob_status(data, None), []])
     out.sort(key=lambda r: (r[0], str(r[1])))
     return out
 
@@ -340,7 +359,7 @@ def _handler(case):
                 good = f[2] if f[0] == "tree" else pickle.dumps({"no": "tree"})
                 val = corrupt(kind, good, pos)
                 o["blob"] = blob_status(val, None)
-                o["applied"] = db_exec(path, [("UPDATE models SET data = ? WHERE txt_hash = ?", (val, sha(texts[ti])))])
+                o["applied"] = db_exec(path, [("UPDATE models SET data = ? WHERE txt_hash = ?", (val, key_of(texts[ti])))])
             elif k == "layout":
                 kind = op[1]
                 stmts = {
@@ -374,11 +393,12 @@ def _handler(case):
             st = store_facts(path, texts)
             o["store"] = st
             if isinstance(st, list):
-                rows_seen += len(st)
+                rows_seen += sum(1 for r_ in st if r_[0] >= 0)
             obs.append(o)
     finally:
         shutil.rmtree(folder, ignore_errors=True)
-    return {"obs": obs, "fresh": [f[0] for f in fr], "rows_seen": rows_seen}
+    sig = [hashlib.sha1(f[1].encode("utf-8", "surrogatepass")).hexdigest() if f[0] == "tree" else None for f in fr]
+    return {"obs": obs, "fresh": [f[0] for f in fr], "fresh_sig": sig, "rows_seen": rows_seen}
 
 
 if __name__ == "__main__":
